@@ -14,13 +14,20 @@
 //!     (the work list is replicated here with the real `translate_block` on `get_bytes(addr, 64)`; `empty` = no
 //!     bytes); the Lean model of the assembly algorithm (FalconModel/Assemble.lean) is run on them and its result
 //!     compared with the recovered function.
+//!
+//! second request kind (the assembly algorithm alone, on synthetic translation results):
+//!   request = `asm <0xentry> | (at <0xaddr> <btr|empty|fail>)… (manual <0xhead> <0xtail> <-|cond>)…`   (addresses not listed: no bytes)
+//!   answer  = `fn <FIL>` | `err:…` | `panic@…` of the REAL `translate_function_extended` (the trait's provided method)
+//!             run with a table translator (`translate_block(_, addr)` = the table entry at `addr`, `Err` if there is
+//!             none, i.e. `fail`) over a memory that has bytes exactly at the `btr` and `fail` addresses.
+//!   The Lean driver runs `Assemble.translateFunction` on the same table and compares.
 //! The Lean driver recomputes both runs with its own IL semantics and compares; it also checks the structural
 //! clauses (no dangling edge, entry = function address, every instruction address in exactly one block).
 use falcon::architecture::{Architecture, Endian};
 use falcon::executor::{Driver, Memory, State};
 use falcon::il::{self, FunctionLocation, Operation, Program, ProgramLocation, RefFunctionLocation};
 use falcon::memory::{backing, MemoryPermissions};
-use falcon::translator::{BlockTranslationResult, ManualEdge, Options, OptionsBuilder, TranslationMemory};
+use falcon::translator::{BlockTranslationResult, ManualEdge, Options, OptionsBuilder, TranslationMemory, Translator};
 use falcon::RC;
 use fvh::canon::{catch, const_str, err_str, last_panic};
 use fvh::fil::function_str;
@@ -101,6 +108,237 @@ fn single(a: &dyn Architecture, mem: &backing::Memory, pc: u64) -> Result<BlockT
     Ok(BlockTranslationResult::new(vec![first], pc, (next - pc) as usize, vec![(next, None)]))
 }
 
+// ------------------------------------------------------------------------------------------ table translator
+
+struct TableMem(std::collections::BTreeSet<u64>);
+
+impl TranslationMemory for TableMem {
+    fn permissions(&self, address: u64) -> Option<MemoryPermissions> {
+        if self.0.contains(&address) {
+            Some(MemoryPermissions::READ | MemoryPermissions::EXECUTE)
+        } else {
+            None
+        }
+    }
+    fn get_u8(&self, address: u64) -> Option<u8> {
+        if self.0.contains(&address) {
+            Some(0)
+        } else {
+            None
+        }
+    }
+}
+
+struct TableTranslator(BTreeMap<u64, BlockTranslationResult>);
+
+impl Translator for TableTranslator {
+    fn translate_block(&self, _bytes: &[u8], address: u64, _options: &Options) -> Result<BlockTranslationResult, falcon::Error> {
+        self.0.get(&address).cloned().ok_or_else(|| "no table entry".into())
+    }
+}
+
+fn read_btr(x: &fvh::sx::Sx) -> Option<BlockTranslationResult> {
+    let l = x.list()?;
+    if l.first()?.atom()? != "btr" || l.len() < 3 {
+        return None;
+    }
+    let addr = l[1].u64()?;
+    let len = l[2].usize()?;
+    let mut instrs = Vec::new();
+    let mut succs = Vec::new();
+    for it in &l[3..] {
+        let il_ = it.list()?;
+        match il_.first()?.atom()? {
+            "fn" => {
+                let f = fvh::fil::read_function(it)?;
+                instrs.push((f.address(), f.control_flow_graph().clone()));
+            }
+            "succ" => {
+                let c = if il_[2].atom() == Some("-") { None } else { Some(fvh::fil::read_expr(&il_[2])?) };
+                succs.push((il_[1].u64()?, c));
+            }
+            _ => return None,
+        }
+    }
+    Some(BlockTranslationResult::new(instrs, addr, len, succs))
+}
+
+fn answer_asm(line: &str) -> String {
+    let bad = "bad-request".to_string();
+    let (head, body) = match line.split_once(" | ") {
+        Some(p) => p,
+        None => return bad,
+    };
+    let hf: Vec<&str> = head.split(' ').collect();
+    if hf.len() != 2 {
+        return bad;
+    }
+    let entry = match u64::from_str_radix(hf[1].trim_start_matches("0x"), 16) {
+        Ok(e) => e,
+        Err(_) => return bad,
+    };
+    let items = match fvh::sx::parse_all(body) {
+        Some(x) => x,
+        None => return bad,
+    };
+    let mut table = BTreeMap::new();
+    let mut present = std::collections::BTreeSet::new();
+    let mut ob = OptionsBuilder::new();
+    for it in &items {
+        let l = match it.list() {
+            Some(l) => l,
+            None => return bad,
+        };
+        match (l.first().and_then(|x| x.atom()), l.len()) {
+            (Some("at"), 3) => {
+                let a = match l[1].u64() {
+                    Some(a) => a,
+                    None => return bad,
+                };
+                if l[2].atom() == Some("empty") {
+                    continue;
+                }
+                if l[2].atom() == Some("fail") {
+                    present.insert(a); // bytes, but `translate_block` fails there
+                    continue;
+                }
+                match read_btr(&l[2]) {
+                    Some(b) => {
+                        table.insert(a, b);
+                        present.insert(a);
+                    }
+                    None => return bad,
+                }
+            }
+            (Some("manual"), 4) => {
+                let (h, t) = match (l[1].u64(), l[2].u64()) {
+                    (Some(h), Some(t)) => (h, t),
+                    _ => return bad,
+                };
+                let c = if l[3].atom() == Some("-") {
+                    None
+                } else {
+                    match fvh::fil::read_expr(&l[3]) {
+                        Some(c) => Some(c),
+                        None => return bad,
+                    }
+                };
+                ob = ob.add_manual_edge(ManualEdge::new(h, t, c));
+            }
+            _ => return bad,
+        }
+    }
+    let opts = ob.build();
+    let mem = TableMem(present);
+    let tr = TableTranslator(table);
+    match catch(|| tr.translate_function_extended(&mem, entry, &opts)) {
+        None => format!("panic@{}", last_panic()),
+        Some(Err(e)) => err_str(&e).to_string(),
+        Some(Ok(f)) => format!("fn {}", function_str(&f)),
+    }
+}
+
+/// a small instruction graph at `addr`: one block, a diamond, or a loop, with entry and exit
+fn synth_graph(rng: &mut Rng, addr: u64) -> il::ControlFlowGraph {
+    let mut g = il::ControlFlowGraph::new();
+    let k = rng.below(4);
+    let nb = if k == 0 { 1 } else if k == 1 { 2 } else { 3 };
+    for i in 0..nb {
+        let b = g.new_block().unwrap();
+        for _ in 0..rng.below(3) {
+            if rng.chance(1, 2) {
+                b.nop();
+            } else {
+                b.assign(il::scalar("r", 32), il::expr_const(addr + i as u64, 32));
+            }
+        }
+    }
+    let c = || il::Expression::cmpeq(il::expr_scalar("r", 32), il::expr_const(1, 32)).unwrap();
+    match k {
+        1 => g.unconditional_edge(0, 1).unwrap(),
+        2 => {
+            g.conditional_edge(0, 1, c()).unwrap();
+            g.conditional_edge(0, 2, il::Expression::cmpneq(il::expr_scalar("r", 32), il::expr_const(1, 32)).unwrap()).unwrap();
+            g.unconditional_edge(1, 2).unwrap();
+        }
+        3 => {
+            g.conditional_edge(0, 1, c()).unwrap();
+            g.conditional_edge(0, 2, il::Expression::cmpneq(il::expr_scalar("r", 32), il::expr_const(1, 32)).unwrap()).unwrap();
+            g.unconditional_edge(1, 0).unwrap();
+        }
+        _ => {}
+    }
+    g.set_entry(0).unwrap();
+    g.set_exit(nb - 1).unwrap();
+    g.set_address(Some(addr));
+    g
+}
+
+fn gen_asm(rng: &mut Rng, em: &mut Emit, n: usize) {
+    for _ in 0..n {
+        let slots = rng.range(2, 7) as usize; // candidate addresses 0x1000 + 4k
+        let addr = |k: usize| 0x1000u64 + 4 * k as u64;
+        let mut items: Vec<String> = Vec::new();
+        let (mut has_empty_list, mut has_missing, mut has_shared, mut has_emptywin) = (false, false, false, false);
+        let mut seen_instr: std::collections::BTreeSet<u64> = std::collections::BTreeSet::new();
+        for k in 0..slots {
+            let r = rng.below(20);
+            if r == 0 {
+                has_missing = true; // bytes but no table entry: translate_block fails if the work list gets here
+                items.push(format!("(at 0x{:x} fail)", addr(k)));
+                continue;
+            }
+            if r == 1 {
+                has_emptywin = true;
+                items.push(format!("(at 0x{:x} empty)", addr(k)));
+                continue;
+            }
+            // instructions: a run of consecutive slots starting here (windows overlap with later results),
+            // rarely none at all (the PPC `bc`-first shape), rarely an incoherent address
+            let ni = if rng.chance(1, 12) { 0 } else { rng.range(1, 3) as usize };
+            if ni == 0 {
+                has_empty_list = true;
+            }
+            let mut instrs = Vec::new();
+            for j in 0..ni {
+                let a = if rng.chance(1, 15) { addr(rng.below(slots as u64) as usize) } else { addr(k + j) };
+                if !seen_instr.insert(a) {
+                    has_shared = true;
+                }
+                instrs.push((a, synth_graph(rng, a)));
+            }
+            let mut succs = Vec::new();
+            for _ in 0..rng.below(3) {
+                let t = if rng.chance(1, 15) { addr(slots + rng.below(2) as usize) } else { addr(rng.below(slots as u64) as usize) };
+                let c = if rng.chance(1, 2) {
+                    Some(il::Expression::cmpeq(il::expr_scalar("f", 1), il::expr_const(rng.below(2), 1)).unwrap())
+                } else {
+                    None
+                };
+                succs.push((t, c));
+            }
+            let b = BlockTranslationResult::new(instrs, addr(k), 4 * ni, succs);
+            items.push(format!("(at 0x{:x} {})", addr(k), btr_str(&b)));
+        }
+        let nm = if rng.chance(1, 3) { rng.range(1, 2) } else { 0 };
+        for _ in 0..nm {
+            let c = if rng.chance(1, 3) { "(cmpeq (s f 1) (c 0x1 1))" } else { "-" };
+            items.push(format!("(manual 0x{:x} 0x{:x} {})", addr(rng.below(slots as u64) as usize), addr(rng.below(slots as u64) as usize), c));
+        }
+        let b = |x: bool| if x { 1 } else { 0 };
+        let cls = format!(
+            "asm/emptylist{}/missing{}/emptywin{}/shared{}/manual{}",
+            b(has_empty_list),
+            b(has_missing),
+            b(has_emptywin),
+            b(has_shared),
+            b(nm > 0)
+        );
+        em.case(&cls, format!("asm 0x{:x} | {}", addr(rng.below(2) as usize), items.join(" ")));
+    }
+}
+
+
 /// the work list of `translate_function_extended`, replicated with the real `translate_block`
 fn worklist(a: &dyn Architecture, mem: &backing::Memory, r: &Req, opts: &Options) -> Vec<String> {
     use std::collections::VecDeque;
@@ -142,6 +380,9 @@ fn worklist(a: &dyn Architecture, mem: &backing::Memory, r: &Req, opts: &Options
 }
 
 fn answer(line: &str) -> String {
+    if line.starts_with("asm ") {
+        return answer_asm(line);
+    }
     let r = match parse(line) {
         Some(r) => r,
         None => return "bad-request".to_string(),
@@ -633,6 +874,9 @@ fn generate(tier: Tier, rng: &mut Rng, em: &mut Emit) {
             }
         }
     }
+    // the assembly algorithm alone, on synthetic translation results (after the programs, so that their stream is unchanged)
+    let mut r2 = rng.fork();
+    gen_asm(&mut r2, em, if tier == Tier::Quick { 1_500 } else { 60_000 });
 }
 
 fn main() {
